@@ -1727,6 +1727,8 @@ impl VmGreenThread {
 
     #[inline(always)]
     fn step(&mut self) -> bool {
+        #[cfg(feature = "verif")]
+        crate::verif::count_instr();
         let instr = self.shared.program[self.pc.get()];
 
         self.pc.0 += 1;
